@@ -133,6 +133,7 @@ class Records(Histories):
 BODY_SRC = '''
 from typing import Generator
 from taskchain import Task, Parameter, DirData
+from taskchain.data import InMemoryData
 from taskchain.task import ModuleTask
 
 STATE = {'n': 0}
@@ -154,6 +155,33 @@ class Plain(Task):
         for falsy in (0, '', [], None, False, 0.0, {}):
             self.save_to_run_info(falsy)
         return {'n': n}
+
+class Ign(Task):               # a parameter that does not enter the storage key
+    class Meta:
+        parameters = [Parameter('k'), Parameter('skip', ignore_persistence=True), Parameter('opt', default=1, dont_persist_default_value=True)]
+    def run(self, k, skip, opt) -> dict:
+        n = _tick(self)
+        self.logger.info(f'tok {n} first')
+        self.save_to_run_info({'r': n, 'i': 0})
+        self.logger.info(f'tok {n} second')
+        self.save_to_run_info(f'rec {n}')
+        return {'n': n, 'skip': skip}
+
+class FreshData(InMemoryData):
+    pass
+
+class Fresh(Task):             # run returns a NEW data object instead of filling the one the task holds
+    class Meta:
+        parameters = [Parameter('k')]
+    def run(self, k) -> FreshData:
+        n = _tick(self)
+        self.logger.info(f'tok {n} first')
+        self.save_to_run_info({'r': n, 'i': 0})
+        self.logger.info(f'tok {n} second')
+        self.save_to_run_info(f'rec {n}')
+        d = FreshData()
+        d.set_value({'n': n})
+        return d
 
 class Fragile(Task):           # from its second run on the result cannot be stored (a set inside the mapping)
     class Meta:
@@ -224,6 +252,10 @@ class RunBodies(Suite):
                     out.append(dict(shape=shape, k=k, hist=hist))
         # a forced run whose value cannot be stored: the stored result, and the record, stay those of the earlier run
         out += [dict(shape='fragile', k=0, hist=h) for h in ('forced_unsavable', 'unsavable_then_ok')]
+        # the same location recomputed by a chain whose config differs in parameters outside the key only
+        out += [dict(shape='ign', k=0, hist=h) for h in ('other_config_forced', 'other_config_new_process_value')]
+        # a task whose run returns a new data object, run again in the same process
+        out += [dict(shape='fresh', k=k, hist=h) for k in (0, 1) for h in ('once', 'forced', 'forced_twice', 'new_chain_forced')]
         return out
 
     def run_impl(self, case):
@@ -237,10 +269,25 @@ class RunBodies(Suite):
             try:
                 exec(compile(BODY_SRC, name, 'exec'), m.__dict__)
                 cls = {'plain': ['Plain'], 'gen': ['Gen'], 'dirs': ['Dirs'], 'down': ['Plain', 'Gen', 'Down'],
-                       'fragile': ['Fragile']}[case['shape']]
+                       'fragile': ['Fragile'], 'ign': ['Ign'], 'fresh': ['Fresh']}[case['shape']]
+                if case['shape'] == 'ign':
+                    def chain_with(skip, opt):
+                        data = {'tasks': [f'{name}.Ign'], 'k': 0, 'skip': skip}
+                        if opt is not None:
+                            data['opt'] = opt
+                        return Config(Path('data'), name='c', data=data).chain()
+                    a = chain_with('first', None)['ign']
+                    _ = a.value
+                    b = chain_with('second', 1)['ign']
+                    same_location = a.data_path == b.data_path
+                    b.force()
+                    _ = b.value
+                    t = chain_with('second', 1)['ign']
+                    return dict(ign=True, same_location=same_location, parameters=(t.run_info or {}).get('parameters'),
+                                records=(t.run_info or {}).get('log'), last=m.STATE['ign'], value=t.value)
                 def chain():
                     return Config(Path('data'), name='c', data={'tasks': [f'{name}.{c}' for c in cls], 'k': case['k']}).chain()
-                tname = {'plain': 'plain', 'gen': 'gen', 'dirs': 'dirs', 'down': 'down', 'fragile': 'fragile'}[case['shape']]
+                tname = {'plain': 'plain', 'gen': 'gen', 'dirs': 'dirs', 'down': 'down', 'fragile': 'fragile', 'fresh': 'fresh'}[case['shape']]
                 if case['shape'] == 'fragile':
                     ch = chain()
                     first_value = ch[tname].value
@@ -281,6 +328,17 @@ class RunBodies(Suite):
     def oracle(self, case, obs):
         if 'unexpected_exception' in obs:
             return f'unexpected exception {obs["unexpected_exception"]}: {obs["text"]}'
+        if obs.get('ign'):
+            n = obs['last']
+            if not obs['same_location']:
+                return f'{case}: a parameter excluded from persistence moved the result'
+            p = obs['parameters'] or {}
+            if p.get('skip') != repr('second') or p.get('opt') != repr(1) or p.get('k') != repr(0):
+                return (f'{case}: the record of the latest run (skip=\'second\', opt=1, k=0) lists the parameters {p}: '
+                        f'the representation of every parameter value USED by that run')
+            if json.dumps(obs['records'], sort_keys=True) != json.dumps([{'r': n, 'i': 0}, f'rec {n}'], sort_keys=True):
+                return f'{case}: the records after the latest run (number {n}) are {obs["records"]}'
+            return None
         if obs.get('fragile'):
             r = obs['stored_run']
             if obs['failed'] is None:
